@@ -45,6 +45,8 @@ pub struct Profile {
     pub min_tasks: u8,
     /// percent of observers that read the handle counts
     pub p_obs_counts: u32,
+    /// add a quiescent epilogue (main keeps its roots) when every task has bounded waits only
+    pub epilogue: bool,
 }
 
 impl Default for Profile {
@@ -83,6 +85,7 @@ impl Default for Profile {
             p_full_spin: 5,
             min_tasks: 2,
             p_obs_counts: 20,
+            epilogue: false,
         }
     }
 }
@@ -395,7 +398,19 @@ pub fn gen_case(rng: &mut Rng, p: &Profile) -> Case {
         }
         tasks.push(TaskSpec { handles, ops });
     }
-    Case { cap, ctor, class, mask: rng.next(), knobs: gen_knobs(rng, p), tasks, main_keeps_roots: false, lock_harness: false }
+    // when no task can block indefinitely main keeps its root handles and inspects the quiescent channel
+    let all_bounded = roles.iter().all(|r| *r == 2);
+    let mut epilogue = Vec::new();
+    if all_bounded && p.epilogue {
+        for what in [Obs::SenderCount, Obs::ReceiverCount, Obs::IsClosed, Obs::Len, Obs::IsFull, Obs::IsEmpty] {
+            epilogue.push(Op::Observe { h: 1, what });
+        }
+        epilogue.push(Op::Observe { h: 0, what: Obs::IsDisconnected });
+        epilogue.push(Op::Drain { h: 1, pre: 0, spare: 0 });
+        epilogue.push(Op::Observe { h: 1, what: Obs::IsTerminated });
+        epilogue.push(Op::TryRecv { h: 1 });
+    }
+    Case { cap, ctor, class, mask: rng.next(), knobs: gen_knobs(rng, p), tasks, main_keeps_roots: all_bounded && p.epilogue, lock_harness: false, epilogue }
 }
 
 /// the profile used by property `prop`
@@ -434,6 +449,7 @@ pub fn profile_for(prop: &str) -> Profile {
             p.caps = vec![(Cap::Bounded(0), 30), (Cap::Bounded(1), 25), (Cap::Bounded(2), 20), (Cap::Bounded(3), 10), (Cap::Unbounded, 15)];
         }
         "C03" => {
+            p.epilogue = true;
             p.senders = (0, 1);
             p.receivers = (0, 1);
             p.both = (0, 2);
@@ -463,6 +479,7 @@ pub fn profile_for(prop: &str) -> Profile {
             p.p_observe = 5;
         }
         "C12" => {
+            p.epilogue = true;
             p.senders = (0, 1);
             p.receivers = (0, 1);
             p.both = (1, 3);
